@@ -556,6 +556,23 @@ def rule_chunk_loops(ctx, rd):
               and isinstance(s.value, ast.Call) and norm(s.value.func) == 'Deserializer' and len(s.value.args) == 1
               and isinstance(s.value.args[0], ast.Name)]
         if len(rb) != 1:
+            # the rebuild may take the refilled bytes as an expression; the buffer the NEXT refill slices must then still be
+            # re-bound in the loop, or every later refill starts again from the first chunk
+            rb2 = [s for s in cl['outer'].body if isinstance(s, ast.Assign) and norm(s.targets[0]) == cl['deser']
+                   and isinstance(s.value, ast.Call) and norm(s.value.func) == 'Deserializer' and len(s.value.args) == 1]
+            if len(rb2) == 1:
+                sliced = [x.value.id for x in ast.walk(rb2[0].value.args[0]) if isinstance(x, ast.Subscript) and isinstance(x.value, ast.Name)]
+                carried = [v for v in sliced if not any(isinstance(s2, (ast.Assign, ast.AugAssign)) and
+                                                        norm(s2.targets[0] if isinstance(s2, ast.Assign) else s2.target) == v
+                                                        for s2 in cl['outer'].body)]
+                ctx.check(not carried and bool(sliced), 'C13.REFILL', ctx.key(f, rb2[0], 'buffer carried to the next refill'),
+                          'the buffer the refill slices is re-bound to the refilled bytes in every iteration',
+                          f'the deserializer is rebuilt from `{norm(rb2[0].value.args[0])[:60]}` but `{", ".join(carried) or "?"}` itself is never '
+                          're-bound in the loop: the second and later refills slice the stale first buffer, parsing restarts misaligned and the '
+                          'recorded boundaries are wrong', loc=ctx.loc(f, rb2[0]))
+                n += 1
+                if carried or not sliced:
+                    continue
             raise AnalysisError(f'{f.key}: `{cl["deser"]} = Deserializer(<buffer>)` rebuild not found in the refill loop')
         rawv0 = rb[0].value.args[0].id
         writes = [s for s in cl['outer'].body if s.lineno > t.lineno and s.lineno < rb[0].lineno and (
